@@ -231,6 +231,8 @@ def corpus_slice(rng, files, maxlines=80, inject=(0, 3), frags=None):
 def hostile(rng, files, trig=0.15):
     """the default hostile mix: garbage / fgarbage / slices+inject / rule triggers"""
     r = rng.random()
+    if r < .05:
+        return eof_program(rng)
     if r < .30:
         return mixed(rng)
     if r < .30 + trig:
@@ -279,6 +281,37 @@ def deep(rng, max_levels=330):
     out.append(' ' * nblocks + stmt + expr + rng.choice(['\n', '\n', '', '  # c\n']))
     if rng.random() < .3:
         out.append('tail = 1\n')
+    return ''.join(out)
+
+
+# ---------------------------------------------------------------------------
+# end-of-file forms: what the parser's end handling (missing NEWLINE, pending DEDENTs, single-leaf statements) sees
+
+_EOF_HEADERS = ['class A:', 'def f():', 'if x:', 'else:', 'for i in j:', 'while x:', 'try:', 'finally:', 'with a:', 'async def g():', 'except E:',
+                'elif y:', 'match v:', 'case _:', 'class B(A):', 'def h(a, /, b, *, c):', 'lambda:', '@d']
+_EOF_LAST = ['...', 'pass', 'x', '1', "'s'", 'None', 'break', 'continue', 'return', 'yield', 'x = 1', 'return x', 'a.b', 'f()', 'x;', 'pass; ...', '...; pass',
+             'x = (', ')', 'del x', 'raise', 'global g', 'import os', 'x: int', 'await y', '*a', 'not x', '-1', 'f"{x}"', "'a' 'b'", 'lambda: 0', '[...]', '...,',
+             'x = ...', '... if ... else ...', 'def k(): ...', 'class K: ...', 'if x: ...', 'x = yield', '@', ':', '..', '....', '. . .', '->', ':=']
+_EOF_ENDS = ['', '', '', '\n', ' ', '\t', '\\\n', '  # c', '\n    ', '\n\n', '\r', '\r\n', '\x0c', ';', ' \\', '\n#', '\n  # c\n', '\n\\\n']
+
+
+def eof_program(rng):
+    depth = rng.choice([0, 1, 1, 1, 2, 2, 3])
+    out, ind = [], ''
+    if rng.random() < .3:
+        out.append(rng.choice(['x = 1\n', '"""doc"""\n', '\n', '# c\n', 'import a\n']))
+    for k in range(depth):
+        h = rng.choice(_EOF_HEADERS)
+        if k == depth - 1 and rng.random() < .35:
+            out.append(ind + h + ' ')                  # one-line suite: the last statement follows on the same line
+            ind = None
+            break
+        out.append(ind + h + '\n')
+        if not h.startswith('@'):
+            ind += rng.choice(['    ', '    ', ' ', '\t', '        '])
+        if rng.random() < .3:
+            out.append(ind + rng.choice(['pass\n', 'x = 1\n', '...\n', '# c\n', '\n']))
+    out.append((ind or '') + rng.choice(_EOF_LAST) + rng.choice(_EOF_ENDS))
     return ''.join(out)
 
 # ---------------------------------------------------------------------------
